@@ -458,12 +458,18 @@ func BuildInst(b *ir.Block, c *Case, vals []value.Value, tc *TypeCtx) value.User
 		i.Weak = c.HasFlag("weak")
 		i.Volatile = c.HasFlag("volatile")
 		i.SyncScope = c.Attrs["syncscope"]
+		if _, ok := c.Attrs["align"]; ok {
+			i.Align = ir.Align(atoiAttr(c, "align"))
+		}
 		name(i)
 		return i
 	case "atomicrmw":
 		i := b.NewAtomicRMW(must(rmwOps, c.Attrs["op"], "atomicrmw operation"), a.one("Dst"), a.one("X"), ord("ordering"))
 		i.Volatile = c.HasFlag("volatile")
 		i.SyncScope = c.Attrs["syncscope"]
+		if _, ok := c.Attrs["align"]; ok {
+			i.Align = ir.Align(atoiAttr(c, "align"))
+		}
 		name(i)
 		return i
 	case "getelementptr":
@@ -870,6 +876,7 @@ type Built struct {
 	Blocks []*ir.Block
 	Insts  [][]value.User // per block, the instructions in call order
 	Terms  []value.User
+	Params []*ir.Param
 	tc     *TypeCtx
 	cur    *string
 	byName map[string]constant.Constant
@@ -1043,6 +1050,7 @@ func BuildProgTracked(p *Prog, cur *string) *Built {
 	if p.Fn.Pers {
 		bt.F.Personality = bt.Global("pers")
 	}
+	bt.Params = params
 	bt.Insts = make([][]value.User, len(bt.Blocks))
 	bt.Terms = make([]value.User, len(bt.Blocks))
 	// terminators that are referred to as values (catchswitch) must exist before their users:
@@ -1064,4 +1072,111 @@ func (bt *Built) call(b *ir.Block, c *Case, params []*ir.Param) value.User {
 		vals[i] = bt.Resolve(c.Ops[i].V, params)
 	}
 	return BuildInst(b, c, vals, bt.tc)
+}
+
+// BuildHist replays a history program (family "hist") through the public API: the function as
+// first constructed (p.Hist.Init) by BuildProgTracked, then every step on the real objects --
+//
+//	print          Module.String() / Func.LLString() / Func.AssignIDs()        (the text is dropped)
+//	replace        a new instruction made by its constructor, assigned to Block.Insts[i], the uses
+//	               of the old one redirected through Operands()
+//	setname-*      SetName on the instruction / parameter / block
+//	swap, remove   slice operations on Block.Insts
+//	insert         a new instruction placed before position i (i = length + 1: Block.NewXxx as is)
+//	setterm        Block.NewRet ... on a block that has a terminator (overwrites Term)
+//	newblock       Func.NewBlock + NewUnreachable
+//
+// The returned module is the module after the history; the caller prints it.
+func BuildHist(p *Prog, cur *string) *Built {
+	q := *p
+	q.Fn = p.Hist.Init
+	q.Hist = nil
+	bt := BuildProgTracked(&q, cur)
+	// the constructor call of a new instruction: Block.NewXxx appends it; it is taken off the end again
+	make1 := func(bi int, c *Case) (value.User, ir.Instruction) {
+		blk := bt.Blocks[bi]
+		n := len(blk.Insts)
+		u := bt.call(blk, c, bt.Params)
+		if len(blk.Insts) != n+1 {
+			panic(fmt.Sprintf("schema: constructor call of %s did not append exactly one instruction", c.Kind))
+		}
+		in := blk.Insts[n]
+		blk.Insts = blk.Insts[:n]
+		return u, in
+	}
+	for si := range p.Hist.Steps {
+		s := &p.Hist.Steps[si]
+		*cur = "hist:" + s.Op
+		bi, ii := s.B-1, s.I-1
+		switch s.Op {
+		case "print":
+			switch s.Name {
+			case "String":
+				_ = bt.M.String()
+			case "FuncLLString":
+				_ = bt.F.LLString()
+			case "AssignIDs":
+				if err := bt.F.AssignIDs(); err != nil {
+					panic(fmt.Sprintf("Func.AssignIDs: %v", err))
+				}
+			default:
+				panic("schema: unknown observer " + s.Name + " (spec gap)")
+			}
+		case "replace":
+			u, in := make1(bi, &s.Inst)
+			old := bt.Blocks[bi].Insts[ii]
+			bt.Blocks[bi].Insts[ii] = in
+			bt.Insts[bi][ii] = u
+			// ... and every use of the old instruction is redirected to the new one through the
+			// operand pointers of its users (the replace-all-uses loop over Operands())
+			if oldv, ok := old.(value.Value); ok {
+				newv := in.(value.Value)
+				redirect := func(us value.User) {
+					for _, op := range us.Operands() {
+						if *op == oldv {
+							*op = newv
+						}
+					}
+				}
+				for _, blk := range bt.F.Blocks {
+					for _, x := range blk.Insts {
+						redirect(x)
+					}
+					redirect(blk.Term)
+				}
+			}
+		case "setname-inst":
+			bt.Insts[bi][ii].(value.Named).SetName(s.Name)
+		case "setname-param":
+			bt.Params[ii].SetName(s.Name)
+		case "setname-block":
+			bt.Blocks[bi].SetName(s.Name)
+		case "swap":
+			is := bt.Blocks[bi].Insts
+			is[ii], is[ii+1] = is[ii+1], is[ii]
+			bt.Insts[bi][ii], bt.Insts[bi][ii+1] = bt.Insts[bi][ii+1], bt.Insts[bi][ii]
+		case "remove":
+			blk := bt.Blocks[bi]
+			blk.Insts = append(blk.Insts[:ii:ii], blk.Insts[ii+1:]...)
+			bt.Insts[bi] = append(bt.Insts[bi][:ii:ii], bt.Insts[bi][ii+1:]...)
+		case "insert":
+			blk := bt.Blocks[bi]
+			u, in := make1(bi, &s.Inst)
+			rest := append([]ir.Instruction{in}, blk.Insts[ii:]...)
+			blk.Insts = append(blk.Insts[:ii:ii], rest...)
+			urest := append([]value.User{u}, bt.Insts[bi][ii:]...)
+			bt.Insts[bi] = append(bt.Insts[bi][:ii:ii], urest...)
+		case "setterm":
+			bt.Terms[bi] = bt.call(bt.Blocks[bi], &s.Inst, bt.Params)
+		case "newblock":
+			nb := bt.F.NewBlock(s.Name)
+			nb.NewUnreachable()
+			bt.Blocks = append(bt.Blocks, nb)
+			bt.Insts = append(bt.Insts, nil)
+			bt.Terms = append(bt.Terms, nb.Term.(value.User))
+		default:
+			panic(fmt.Sprintf("schema: no binding for history step %q (spec gap)", s.Op))
+		}
+	}
+	return bt
 }
